@@ -72,6 +72,7 @@ deliver, with `N` = number of frames delivered:
 
 * no panic, no data-drop flag, blocks numbered contiguously;
 * at most the last < 3 frames' worth of visible bytes are withheld (the 3-frame minimum);
+* every block has one slice per channel, all of the block's length (`shapeOK`);
 * error channel `2(c·nrows+r)` is exactly the `err` component of word (r, c) of frames `0..N-1`, in
   order (`cleanRun`, the run-time oracle, holds);
 * feedback channel `2(c·nrows+r)+1` is the retarded / mixed feedback of the same word (closed form
@@ -88,6 +89,7 @@ theorem C04_chunking_independent (ops : FloatOps σ ρ) (zero : σ) (scaleOf : N
       min ((ticks.map (·.1)).sum) (encFrames frames).length < (N + 3) * g.fs ∧
       contiguous st.next blocks = true ∧
       cleanRun g frames blocks 0 = true ∧
+      shapeOK g blocks = true ∧
       (∀ r c, r < g.nr → c < g.nc →
         concatChan blocks (2 * (c * g.nr + r)) = (frames.take N).map fun fr => (fr.getD (r * g.nc + c) (0, 0)).1) ∧
       (∀ ch, ch < g.nchan → ch % 2 = 1 →
@@ -124,7 +126,7 @@ theorem C04_chunking_independent (ops : FloatOps σ ρ) (zero : σ) (scaleOf : N
       else chanTrue g (frames.take N) ch := by
     intro ch hch
     rw [s6 ch hch, hframes, hfr, (cleanSteps_spec scaleOf g zero ch st.scale parts ts st.prevT hlen).2.2.2, ← hN]
-  refine ⟨hNle, ?_, ?_, ?_, ?_, ?_, ?_⟩
+  refine ⟨hNle, ?_, ?_, ?_, ?_, ?_, ?_, ?_⟩
   · simpa [hN] using hav
   · exact spec_contiguous _ _ _ hzero blocks s1 s2 s3
   · unfold cleanRun
@@ -135,6 +137,7 @@ theorem C04_chunking_independent (ops : FloatOps σ ρ) (zero : σ) (scaleOf : N
     rw [hchan ch hch.1]
     simp [hch.2]
     rfl
+  · rw [hsteps]; exact runSteps_shape ops zero scaleOf g hg _ st
   · intro r c hr' hc'
     have hlt := lt_mul_of_parts c g.nc r g.nr hc' hr'
     have hch : 2 * (c * g.nr + r) < g.nchan := by unfold Geom.nchan; omega
@@ -147,6 +150,13 @@ theorem C04_chunking_independent (ops : FloatOps σ ρ) (zero : σ) (scaleOf : N
   · intro ch hch hodd
     rw [hchan ch hch]; simp [hodd]
   · rw [s4, specItems_lossfree g _ _ _ hzero, hframes, hfr]
+
+/-- **Shape of the blocks, for every history.**  Every block `distributeData` makes has one slice per
+channel and every slice has the block's announced length `nSamp` (the run-time check `shapeOK`). -/
+theorem C04_blocks_shape (ops : FloatOps σ ρ) (zero : σ) (scaleOf : Nat → σ)
+    (g : Geom) (hg : geomOK g = true) (steps : List FStep) (st : DState σ) :
+    shapeOK g (blocksOf (runSteps ops zero scaleOf g st (steps.map (FStep.toStep g)))) = true :=
+  runSteps_shape ops zero scaleOf g hg steps st
 
 /-! ### feedback: one-sample retard, flag bits cleared, saturating mix -/
 
